@@ -494,6 +494,9 @@ func c07GraphErrClass(msg string) string {
 		strings.Contains(msg, "to untyped map: contains reference") {
 		return "call_graph_error_struct_with_references_bound_to_untyped_map"
 	}
+	if strings.Contains(msg, "map call generates a nested map") {
+		return "call_graph_error_nested_typed_map_call"
+	}
 	if strings.Contains(msg, "binding within a") || strings.Contains(msg, "no element ") {
 		return "call_graph_error_projection_through_map_syntax_struct"
 	}
